@@ -465,6 +465,20 @@ func wholeMenu(w *world.World, o menuOpts) []world.Action {
 		uni.Call(uni.A0, uni.A0, vmcommon.BuiltInFunctionSaveKeyValue, []byte("k"), []byte("v"), []byte("k"), e, []byte("k"), []byte("w")),
 		uni.Multi(uni.A0, uni.B0, []uni.Ent{{Tok: uni.F, Nonce: 0, Q: 1}, {Tok: uni.S, Nonce: 1, Q: 1}, {Tok: uni.F, Nonce: 0, Q: 1}}),
 	)
+	// nonces at the word boundary, given on 8 and on 9+ bytes (no such holding exists: every call
+	// must be refused and touch nothing)
+	for _, n := range [][]byte{bytes.Repeat([]byte{0xff}, 8), {0xff, 0xff, 0xff, 0xff, 0xff, 0xff, 0xff, 0xfe}, {0x80, 0, 0, 0, 0, 0, 0, 0}, {0x80, 0, 0, 0, 0, 0, 0, 1},
+		{1, 0, 0, 0, 0, 0, 0, 0, 1}, {0, 0, 0, 0, 0, 0, 0, 0, 1}, {1, 0, 0, 0, 1}} {
+		acts = append(acts,
+			uni.Call(uni.A0, uni.A0, vmcommon.BuiltInFunctionESDTNFTAddQuantity, uni.S, n, uni.Big(1)),
+			uni.Call(uni.A0, uni.A0, vmcommon.BuiltInFunctionESDTNFTBurn, uni.S, n, uni.Big(1)),
+			uni.Call(uni.A0, uni.A0, vmcommon.BuiltInFunctionESDTNFTAddURI, uni.S, n, []byte("v")),
+			uni.Call(uni.A0, uni.A0, vmcommon.BuiltInFunctionESDTNFTUpdateAttributes, uni.S, n, []byte("b")),
+			uni.Call(uni.A0, uni.A0, vmcommon.BuiltInFunctionESDTNFTTransfer, uni.S, n, uni.Big(1), uni.B0),
+			uni.Call(uni.A0, uni.A0, vmcommon.BuiltInFunctionESDTNFTTransfer, uni.S, n, uni.Big(1), uni.C1),
+			uni.Call(uni.A0, uni.A0, vmcommon.BuiltInFunctionMultiESDTNFTTransfer, uni.C1, uni.Big(1), uni.S, n, uni.Big(1)),
+			uni.Call(uni.A0, uni.A0, vmcommon.BuiltInFunctionMultiESDTNFTTransfer, uni.B0, uni.Big(1), uni.S, n, uni.Big(1)))
+	}
 	if o.undisciplined {
 		// role messages no disciplined system contract sends (a name twice, an unknown name)
 		acts = append(acts,
